@@ -156,3 +156,30 @@ def dead_by_flag(ctx: Ctx, f: FuncInfo, node: ast.AST) -> bool:
         child = p
         p = getattr(p, "parent", None)
     return False
+
+
+def borrow(ctx: Ctx, out: list, module: str, rules: list[str], why: str) -> None:
+    """Include rules decided by a sibling property's module (the mechanism is shared); rule ids become e.g. 'R3@C06'."""
+    import importlib
+
+    if getattr(ctx, "_in_borrow", False):
+        return  # a borrowed module does not borrow in turn
+    mod = importlib.import_module(f"ramlint.props.{module}")
+    cache = ctx.__dict__.setdefault("_borrow_cache", {})
+    if module not in cache:
+        ctx._in_borrow = True  # type: ignore[attr-defined]
+        try:
+            cache[module] = mod.check(ctx)
+        finally:
+            ctx._in_borrow = False  # type: ignore[attr-defined]
+    for rr in cache[module]:
+        if rr.rule in rules:
+            import copy
+
+            r2 = copy.copy(rr)
+            r2.rule = f"{rr.rule}@{module.upper()}"
+            r2.title = f"{rr.title} (shared with {module.upper()}: {why})"
+            r2.findings = [copy.copy(f) for f in rr.findings]
+            for f in r2.findings:
+                f.rule = r2.rule
+            out.append(r2)
